@@ -208,8 +208,20 @@ def step (s : St) (ws : List String) : St × String :=
     | some ns, some fs =>
       match zipND ns fs with
       | some mf =>
-        edit path (fun c => guard' (canSetMassFracs (compOps ph) ph c mf) (setMassFracs (compOps ph) ph c mf))
-          (fun o a => guard' (canSetMassFracs o ph a mf) (setMassFracs o ph a mf))
+        -- a refused call keeps what it had already applied (`setMassFracsPrefix`)
+        match parseNatList? path with
+        | none => (s, "bad-op")
+        | some p =>
+          let accepted := editAt ph s.core p
+            (fun c => guard' (canSetMassFracs (compOps ph) ph c mf) (setMassFracs (compOps ph) ph c mf))
+            (fun o a => guard' (canSetMassFracs o ph a mf) (setMassFracs o ph a mf))
+          match accepted with
+          | some c => ({ s with core := c }, "ok")
+          | none =>
+            match editAt ph s.core p (fun c => some (setMassFracsPrefix (compOps ph) ph c mf))
+                (fun o a => some (setMassFracsPrefix o ph a mf)) with
+            | some c => ({ s with core := c }, "reject")
+            | none => (s, "bad-op")
       | none => (s, "bad-op")
     | _, _ => (s, "bad-op")
   -- stateless conversions (densityTools)
